@@ -42,8 +42,14 @@ def instances(tier: str) -> list[dict]:
         add("T4", "adv", batches=True)
         add("T5b", "neutral", kinds=("named",), skip_root=True)
         add("T5e", "neutral", kinds=("named",))
+        add("T4r", "neutral")
+        # a 'sub modules of P' subject whose parent node itself imports a root that sorts before P's children
+        for o in ("Q", "L"):
+            for sk in ("named", "sub"):
+                nodes = concrete("T5f", "neutral")
+                out.append({"tree": "T5f", "naming": "neutral", "sk": sk, "S": [nodes[1]], "ok": "named", "O": [nodes[4] if o == "Q" else nodes[0]]})
     else:
-        for t in ("T4", "T5a", "T5b", "T5c", "T5d", "T5e"):
+        for t in ("T4", "T4r", "T5a", "T5b", "T5c", "T5d", "T5e", "T5f"):
             add(t, "neutral", batches=True)
         add("T5a", "adv")
         add("T5b", "adv")
